@@ -12,24 +12,54 @@ def prop(pid, **kw):
 A_VERUS = 'A-verus: soundness of Verus 0.2026.09.13 / Z3 and of the vstd specifications of Vec, slices, Option, HashMap and integer operations'
 A_EXTRACT = 'A-extract: the declared extractor rewrites (listed per unit under coverage.units[].rewrites) preserve behaviour; attributes and doc comments of extracted items are dropped'
 
-prop('T00',   # framework self-check property (not in MANIFEST): Ite::new only
-     units=['ite'],
-     assumptions=[A_VERUS, A_EXTRACT],
-     not_covered=[], replay=None)
+A_PTREQ = 'A-ptreq: `impl PartialEq for BddPtr` (address comparison) is modelled by an uninterpreted relation eq_spec with three assumed facts: it implies structural equality, it is an equivalence relation, and it commutes with `neg`; the converse (structurally equal nodes share an address) is never assumed'
+A_CELL = 'A-cell/A-unsafe: the RefCell fields of RobddBuilder are replaced by trusted accessors (trusted/robdd_cells.rs): the order is constant during the functions under contract; the apply-table invariant is ASSUMED where the table is read and PROVED where it is written; the unique table returns a reference to a node equal to its argument (proved for the real table in unit `table` as `*r == elem`; bumpalo never moves or frees it: A-bump)'
+A_TERM = 'A-term: termination is not claimed for the recursive builder functions (exec_allows_no_decreases_clause); contracts are partial correctness'
+A_CAP = 'A-cap: capacity exponents < 62 and fill counters < usize::MAX (Lru::in_range); the allocation of 2^cap slots aborts long before'
+A_HASH = 'A-hash: hashing is a deterministic function of the key (uninterpreted H); no other property of the hash is used, so every collision pattern is covered'
+A_CLONE = 'A-clone: Clone::clone of the cache key/value types returns an equal value (the builders instantiate them with Copy pointer types)'
+A_F64 = 'A-f64: the floating-point grow test of the Lru is replaced by an arbitrary function of (num_filled, cap) that can answer true only above half full (0.7 > 0.5)'
+A_KANI = 'A-kani: soundness of Kani 0.68 / CBMC 6.11; kani::any() ranges over every bit pattern of the type'
 
-prop('T01', units=['ff'], assumptions=[A_VERUS, A_EXTRACT], not_covered=[], replay='ff')
+prop('C01',
+     units=['ite', 'ptr', 'order', 'lru', 'cache', 'bottomup', 'builder', 'robdd'],
+     assumptions=[A_VERUS, A_EXTRACT, A_PTREQ, A_CELL, A_TERM, A_CAP, A_HASH, A_CLONE, A_F64],
+     replay='bdd',
+     explanation='every public BDD operation carries the postcondition  forall env. ptr_sem(result, env) == <definition>(ptr_sem(args..)), '
+                 'with ptr_sem the structural denotation of a diagram; proved function by function against callee contracts, for an arbitrary '
+                 'order closure in Ite::new, any VarOrder satisfying wf, and any IteTable implementation (both shipped adapters are proved to implement the contract)',
+     not_covered=[
+         'RobddBuilder::new_label / new_var: interior mutation of the order cannot be expressed through the RefCell stub; covered only by the composition of VarOrder::new_last (proved: old positions unchanged) with lemma_ordered_extend (proved)',
+         'condition_model / cond_model_h: loop over PartialModel::assignment_iter (iterator adapter chain); its body is `condition`, which is proved',
+         'RobddBuilder::new, VarOrder::linear_order (iterator chain)',
+         '"a diagram keeps denoting the same function afterwards": by construction (ptr_sem depends only on immutable arena nodes; A-bump, A-unsafe), not a discharged obligation',
+     ])
 
-prop('T02', units=['lru'], assumptions=[A_VERUS, A_EXTRACT], not_covered=[], replay=None)
+prop('C16',
+     units=['lru', 'cache'],
+     assumptions=[A_VERUS, A_EXTRACT, A_CAP, A_HASH, A_CLONE, A_F64,
+                  'A-fxhashmap: rustc_hash::FxHashMap is replaced by a trusted stub that only promises: get returns nothing or a value inserted under an equal key'],
+     replay='lru',
+     explanation='Lru::{new,insert,get,grow} are proved against a slot/view invariant for every capacity and every hash function; lemma_lru_history_* turn the three '
+                 'contracts into the history statement (a lookup returns nothing or the latest insertion under exactly that key); both ITE adapters are proved to return only what was stored under the queried standard triple, complement flag re-applied',
+     not_covered=[
+         'SDD apply cache (std HashMap) and SDD ite cache never changing an SDD result: needs C03',
+         '"a builder with the lossy cache returns the same canonical diagrams": follows from C01 (ite_helper is correct for any IteTable behaviour) plus C02; not a separate obligation',
+         'LruIteTable::hash body (FxHasher, external crate): assumed deterministic (A-hash)',
+     ])
 
-prop('T03', units=['cache'], assumptions=[A_VERUS, A_EXTRACT], not_covered=[], replay=None)
-
-prop('T04', units=['ptr'], assumptions=[A_VERUS, A_EXTRACT], not_covered=[], replay=None)
-
-prop('T05', units=['order'], assumptions=[A_VERUS, A_EXTRACT], not_covered=[], replay=None)
-
-prop('T06', units=['bottomup', 'builder'], assumptions=[A_VERUS, A_EXTRACT], not_covered=[], replay=None)
-
-prop('T07', units=['robdd'], assumptions=[A_VERUS, A_EXTRACT], not_covered=[], replay=None)
+prop('C13',
+     units=['ff'],
+     kani=[{'name': 'k_bool_laws'}, {'name': 'k_real_lattice'}, {'name': 'k_eu_lattice'},
+           {'name': 'k_real_add_small_int'}, {'name': 'k_real_mul_small_int'}],
+     assumptions=[A_VERUS, A_EXTRACT, A_KANI],
+     replay='ff',
+     explanation='FiniteField: new/value/negate/one/zero/add/mul/sub verbatim against integer arithmetic modulo P (generic P with 2(P-1) <= u128::MAX, discharged for each exported prime by compute); '
+                 'ring laws are lemmas over the operator specifications.  Boolean semiring and the real / expected-utility lattice operations: loop-free Kani harnesses over the whole bit domain.',
+     not_covered=[
+         'RationalSemiring (external crate `rational`)', 'Complex (+,* on f64)', 'truncated polynomials (32-coefficient loops)',
+         'real / expected-utility +,* beyond integers |x| <= 8 (domain-bounded Kani harnesses; floating-point addition is not associative in general)',
+     ])
 
 
 def proved_includes(root):
